@@ -138,6 +138,12 @@ def run(run, tier):
     if not ok:
         run.violation('C13/build', 'extracted model does not build: ' + log[-500:], {'log': log[-3000:]}, no_input=True)
         C.proof_coverage(run, props, 1, 0, 'build failed', [log[-300:]]); return
+    # budget oracle first (queue events counted against the proven fuel nm_fuel): a change that makes the event loop run on
+    # is reported here instead of hanging the correspondence below
+    from . import c13x
+    perx = c13x.part(run, tier, None, {})
+    if perx.get('over_budget'):
+        C.proof_coverage(run, props, perx['A_cases'] + perx['B_cases'], 0, 'budget oracle failed; correspondence not run', [], {'c13x': perx}); return
     res = SC.Result()
     judged = {'n': 0}
     def oracle(case, impl, m):
@@ -169,7 +175,7 @@ def run(run, tier):
                      'Every case: trace + arrays + histories + transmissions compared with the extracted model (ties included: the model fixes the heap order); cases without ties are judged by the independent Python agenda oracle ref_sis; '
                      'the extracted Coq ref_sis is cross-checked against that oracle. Non-trivial = at least 3 events after tmin; distinct = distinct model input lines.',
                      res.samples, {'distribution': res.stats, 'mismatches': len(res.mism), 'oracle_failures': len(res.oracle_bad),
-                                   'judged_by_agenda_oracle': judged['n']})
+                                   'judged_by_agenda_oracle': judged['n'], 'c13x': perx})
     run.assumptions += ['heapq on (time, counter, ...) tuples pops the least (time, counter) (specification of heapq, not verified)',
                         'equality in law of fast_nonMarkov_SIS under exponential rules with fast_SIS is cited (memorylessness), not proved']
 
